@@ -452,11 +452,12 @@ func (loader *Loader) resolveComponent(doc *T, ref string, path *url.URL, resolv
 	}
 	var cursor any
 	if cursor, err = drill(componentDoc); err != nil {
-		if path == nil {
+		// look again in the raw data of the document the reference designates
+		if componentPath == nil {
 			return nil, nil, err
 		}
 		var err2 error
-		data, err2 := loader.readURL(path)
+		data, err2 := loader.readURL(componentPath)
 		if err2 != nil {
 			return nil, nil, err
 		}
